@@ -114,6 +114,22 @@ pub fn check(rep: &mut Rep, w: &World, c: i128, s: TimeScale, others: bool) {
     if others && rep.tick() {
         rep.class("render/other-scale");
         let t = w.to_tai(c, s);
+        // tuple accessors in TAI and UTC for an epoch of any scale
+        if let Ok((gt, gu)) = guard(|| (e.to_gregorian_tai(), e.to_gregorian_utc())) {
+            let tol: i128 = if is_dyn(s) { 30 } else { 0 };
+            let tf = |x: (i32, u8, u8, u8, u8, u8, u32)| Fields { y: x.0 as i64, m: x.1 as u32, d: x.2 as u32, h: x.3 as u32, mi: x.4 as u32, s: x.5 as u32, ns: x.6 };
+            let (ft, fu) = (tf(gt), tf(gu));
+            if !fields_valid(&ft) || (count_of(&ft, TimeScale::TAI) - t).abs() > tol {
+                rep.fail("to_gregorian_tai/cross-scale", None, || format!("{}.to_gregorian_tai() = {:?}, TAI reading is {}", det(), ft, t));
+            }
+            let skip_utc = tol > 0 && w.near_utc_discontinuity(t, 100);
+            if let (Some(u), false) = (if s == TimeScale::UTC { Some(c) } else { w.from_tai(t, TimeScale::UTC) }, skip_utc) {
+                if !fields_valid(&fu) || (count_of(&fu, TimeScale::UTC) - u).abs() > tol {
+                    let fid = if s != TimeScale::UTC && w.in_f12b_window(t) && fields_valid(&fu) && (count_of(&fu, TimeScale::UTC) - w.from_tai_f12b(t, TimeScale::UTC)).abs() <= tol { Some("F12b-tai-to-utc-frame") } else { None };
+                    rep.fail("to_gregorian_utc/cross-scale", fid, || format!("{}.to_gregorian_utc() = {:?}, UTC reading is {}", det(), fu, u));
+                }
+            }
+        }
         match guard(|| {
             vec![
                 (TimeScale::UTC, format!("{:?}", e)),
